@@ -256,7 +256,7 @@ func (w *world) ext(from int, data []byte, end uint32, kind string, cur uint32) 
 
 // classify decodes an extensible payload with the node's own consensus types (what is it, from whom).
 func (w *world) classify(e *payload.Extensible) map[string]any {
-	out := map[string]any{"cat": e.Category, "x": sid(e.Hash()), "end": int(e.ValidBlockEnd), "type": "other", "h": 0, "view": 0, "vi": -1, "txs": []string{}}
+	out := map[string]any{"cat": e.Category, "x": sid(e.Hash()), "hx": sid(e.Hash()), "end": int(e.ValidBlockEnd), "type": "other", "h": 0, "view": 0, "vi": -1, "txs": []string{}}
 	for i, k := range w.keys {
 		if k.PublicKey().GetScriptHash() == e.Sender {
 			out["sender"] = i
